@@ -216,8 +216,14 @@ IdOf(x) ==
     [] x.g = "loop" -> "loop-" \o ToString(x.top)
     [] x.g = "fail" -> "fail-" \o ToString(x.top) \o "-" \o x.how
 \* (the second phase of a "changed" case is observed by the harness itself, after the first, on the same engine)
+\* the name in a variable that is a Drop, a pointer, a Drop of a Drop: its string value names the file all the same
+VarReprCase == (c.g = "basic" /\ c.arg = "var" /\ ~c.decoy) =>
+  \A h \in {"drop", "ptr", "dropdrop"} :
+    PrintT(ToJson([id |-> h \o "-" \o IdOf(c), kind |-> "render", prog |-> ProgOf(c), env |-> EnvOf2(c), path |-> TopOf(c),
+                   files |-> FilesOf(c), cache |-> CacheOf(c), usedir |-> TRUE, repr |-> [n |-> h]]))
 EmitCase == (st.status # "run" /\ ~(c.g \in {"changed", "crossdir"} /\ c.phase = 2)) =>
-  PrintT(ToJson([id |-> IdOf(c), kind |-> "render", prog |-> ProgOf(c), env |-> EnvOf2(c), path |-> TopOf(c),
+  /\ VarReprCase
+  /\ PrintT(ToJson([id |-> IdOf(c), kind |-> "render", prog |-> ProgOf(c), env |-> EnvOf2(c), path |-> TopOf(c),
                  files |-> FilesOf(c), cache |-> CacheOf(c), usedir |-> TRUE]
                 @@ (IF c.g = "changed" THEN [then |-> [id |-> IdOf([c EXCEPT !.phase = 2]), files |-> FilesOf([c EXCEPT !.phase = 2])]] ELSE <<>>)
                 @@ (IF c.g = "crossdir" THEN [then |-> [id |-> IdOf([c EXCEPT !.phase = 2]), path |-> TopOf([c EXCEPT !.phase = 2])]] ELSE <<>>)))
